@@ -34,6 +34,13 @@ var (
 var cfgA = srv.Cfg{Services: []srv.Svc{{Listeners: []srv.Ln{{Type: "tcp", Addr: "127.0.0.1:9000"}, {Type: "udp", Addr: "127.0.0.1:9000"}}, Keys: []srv.Key{kA, kB}}}}
 var cfgB = srv.Cfg{Services: []srv.Svc{{Listeners: []srv.Ln{{Type: "tcp", Addr: "127.0.0.1:9000"}, {Type: "udp", Addr: "127.0.0.1:9000"}, {Type: "tcp", Addr: "127.0.0.1:9001"}}, Keys: []srv.Key{kC, kA}}}}
 
+// cfgD lists, ahead of the retained service, another service that offers the retained key as well
+// (what one service offers must not depend on what another one does)
+var cfgD = srv.Cfg{Services: []srv.Svc{
+	{Listeners: []srv.Ln{{Type: "tcp", Addr: "127.0.0.1:9002"}}, Keys: []srv.Key{kA}},
+	{Listeners: []srv.Ln{{Type: "tcp", Addr: "127.0.0.1:9000"}, {Type: "udp", Addr: "127.0.0.1:9000"}}, Keys: []srv.Key{kC, kA}},
+}}
+
 // the same two configurations in the legacy `keys:` format (every port serves TCP and UDP)
 var cfgLA = srv.Cfg{Legacy: []srv.Legacy{{Key: kA, Port: 9000}, {Key: kB, Port: 9000}}}
 var cfgLB = srv.Cfg{Legacy: []srv.Legacy{{Key: kC, Port: 9000}, {Key: kA, Port: 9000}, {Key: kC, Port: 9001}}}
@@ -50,6 +57,7 @@ type spec struct {
 	UDP     bool
 	Legacy  bool // configurations in the legacy format
 	DropUDP bool // the first reload drops the UDP listener of the retained address (TCP stays), the second brings it back
+	SharedKey bool // the new configuration has another service, listed first, that offers the retained key too
 	Failing bool // the reload cannot succeed (a new listener cannot be bound): service on the running configuration goes on
 	Second  bool // a second TCP client and a second datagram right behind the first ones (the first of two
 	// arrivals goes to the generation that has been waiting longest, the second to the other one)
@@ -69,6 +77,9 @@ func (s spec) name() string {
 	if s.Failing {
 		n += "[failing-reload]"
 	}
+	if s.SharedKey {
+		n += "[key-shared-with-new-service]"
+	}
 	return n
 }
 
@@ -84,6 +95,8 @@ type obsT struct {
 	udp2        srv.ProbeResult
 	afterTCP    srv.ProbeResult
 	afterUDP    srv.ProbeResult
+	afterNew    srv.ProbeResult
+	newKeyIn    bool
 	handled     map[string]int
 	failedLoad  bool
 	final       []string
@@ -118,6 +131,9 @@ func scenario(s spec) *engine.Scenario {
 		}
 		if s.DropUDP {
 			cfgs = []srv.Cfg{cfgC, cfgA}
+		}
+		if s.SharedKey {
+			cfgs = []srv.Cfg{cfgD, cfgA}
 		}
 		if s.Failing {
 			w.VW.BindErr["tcp/127.0.0.1:9009"] = syscall.EADDRINUSE
@@ -204,6 +220,12 @@ func scenario(s spec) *engine.Scenario {
 		// (first connection and first datagram after the reload, answer included)
 		o.afterUDP = w.ProbeUDP(srv.Listener{Type: "udp", Addr: "127.0.0.1:9000"}, kA, 4545)
 		o.afterTCP = w.ProbeTCP(ln, kA, 4646)
+		// a client whose key only the configuration now in force has: it must be served by that
+		// configuration (a generation that has been stopped must not take connections any more)
+		if s.Reloads%2 == 1 && !s.Failing && !s.DropUDP {
+			o.newKeyIn = true
+			o.afterNew = w.ProbeTCP(ln, kC, 4747)
+		}
 		// the pre-existing connection finishes now
 		if s.Pre != "half" {
 			pre.Send(full[cut:], 0)
@@ -277,6 +299,9 @@ func scenario(s spec) *engine.Scenario {
 			if !o.afterUDP.Served {
 				add("first-datagram-after-reload-not-served", "the first datagram on the retained address after the reload had completed: forwarded=%v, answer relayed=%v", o.afterUDP.Forwarded, o.afterUDP.Served)
 			}
+			if o.newKeyIn && !o.afterNew.Served {
+				add("new-key-not-served-after-reload", "after the reload had completed, a client using a key of the new configuration on the retained address was not served (authenticated=%v status %s): handled by a generation that has been stopped?", o.afterNew.Authed, o.afterNew.Status)
+			}
 			if !o.afterTCP.Served {
 				add("first-connection-after-reload-not-served", "the first connection on the retained address after the reload had completed: status %s", o.afterTCP.Status)
 			}
@@ -316,6 +341,7 @@ func scenarios(tier string) []*engine.Scenario {
 	out = append(out, scenario(spec{Pre: "idle", Reloads: 1, UDP: true, Legacy: true, Second: true}))
 	out = append(out, scenario(spec{Pre: "idle", Reloads: 2, DropUDP: true}))
 	out = append(out, scenario(spec{Pre: "mid", Reloads: 1, UDP: true, Failing: true}))
+	out = append(out, scenario(spec{Pre: "idle", Reloads: 1, UDP: true, SharedKey: true}))
 	if tier == "thorough" {
 		out = append(out, scenario(spec{Pre: "idle", Reloads: 1, UDP: true, Legacy: true}))
 		out = append(out, scenario(spec{Pre: "idle", Reloads: 1, UDP: true, Second: true}))
@@ -361,7 +387,7 @@ func init() {
 			// the scenarios with two clients also under the second base policy (newest goroutine first:
 			// a freshly started generation gets to run before the reloading goroutine continues)
 			b := bound
-			if strings.Contains(sc.Name, "[udp-dropped-then-back]") || strings.Contains(sc.Name, "[failing-reload]") {
+			if strings.Contains(sc.Name, "[udp-dropped-then-back]") || strings.Contains(sc.Name, "[failing-reload]") || strings.Contains(sc.Name, "[key-shared-with-new-service]") {
 				// what these two are about does not depend on the interleaving: default schedule (and
 				// every data choice) in the quick tier, deviation bound 1 in the thorough one
 				b = bound - 1
